@@ -89,11 +89,8 @@ Theorem clear_keeps_finals : forall s k,
 Proof. exact clear_keeps_finals_all. Qed.
 
 (* ---- non-vacuity ---- *)
-Definition ex_ifs : list iface :=
-  [ {| i_inc := None; i_out := Some true |};
-    {| i_inc := Some false; i_out := None |};
-    {| i_inc := Some true; i_out := None |} ].
-
+(* ex_ifs (Model/Cache.v): 3 interfaces with (inc, out) normal-side flags
+   (None, True), (False, None), (True, None) *)
 (* the history of former finding F5 now answers None twice (cached or not) *)
 Example f5_history_now_consistent :
   map e_obs (fst (run ex_ifs true [Query MIncLegSize 0 true; Query MIncLegSize (-3) true]))
